@@ -1,0 +1,30 @@
+//go:build verif
+
+// Entry points for the verification harness (/verif, properties C13 C20): the node's own import / packing
+// path on a node that was never Run. No logic: thin calls of existing unexported methods.
+package node
+
+import (
+	"github.com/vechain/thor/v2/block"
+	"github.com/vechain/thor/v2/packer"
+)
+
+// VerifInit does what Run does before starting its loops: maxBlockNum is recomputed from the stored headers.
+func (n *Node) VerifInit() error {
+	maxBlockNum, err := n.repo.GetMaxBlockNum()
+	if err != nil {
+		return err
+	}
+	n.maxBlockNum = maxBlockNum
+	return nil
+}
+
+// VerifProcessBlock imports a received block through processBlock (guard, validation, commitBlock).
+func (n *Node) VerifProcessBlock(b *block.Block) (bool, error) {
+	return n.processBlock(b, &blockStats{})
+}
+
+// VerifDoPack packs and commits a block on the given flow through doPack (guard, proposeAndCommit).
+func (n *Node) VerifDoPack(flow *packer.Flow) error {
+	return n.doPack(flow)
+}
